@@ -214,3 +214,116 @@ pub fn to_f64_monotone<const B: usize, const L: usize>(nd: &mut Nd) {
     nd.assume(!refm::lt(b.as_limbs(), a.as_limbs()));
     chk!(nd, "C18.to_f64.monotone", f64::from(a) <= f64::from(b));
 }
+
+/// lean float -> Uint harness: one call of try_from (the class body above makes three conversions per run)
+pub fn try_from_f64<const B: usize, const L: usize, const CLS: usize>(nd: &mut Nd) {
+    let bits = draw::<CLS>(nd);
+    let f = f64::from_bits(bits);
+    let want = classify(bits);
+    let got = Uint::<B, L>::try_from(f);
+    match want {
+        Want::Nan => chk!(nd, "C18.from_f64.nan", matches!(got, Err(ToUintError::NotANumber(b)) if b == B)),
+        Want::Negative => chk!(nd, "C18.from_f64.negative", matches!(got, Err(ToUintError::ValueNegative(b, _)) if b == B)),
+        Want::Value(v, big) => {
+            let mut w = [0u64; L];
+            let mut fits = !big;
+            let mut i = 0;
+            while i < 4 {
+                if i < L {
+                    w[i] = v[i];
+                } else {
+                    fits &= v[i] == 0;
+                }
+                i += 1;
+            }
+            fits &= refm::canonical(&w, B);
+            cov!(nd, "fits", fits);
+            cov!(nd, "too-large", !fits);
+            match got {
+                Ok(x) => chk!(nd, "C18.from_f64.value", fits && refm::eq(x.as_limbs(), &w)),
+                Err(ToUintError::ValueTooLarge(b, _)) => chk!(nd, "C18.from_f64.too_large_but_fits", !fits && b == B),
+                Err(_) => chk!(nd, "C18.from_f64.wrong_error", false),
+            }
+        }
+    }
+}
+
+/// saturating_from(f64): MAX for too large (incl. +inf), 0 for negative and NaN, the rounded value otherwise
+pub fn saturating_from_f64<const B: usize, const L: usize, const CLS: usize>(nd: &mut Nd) {
+    let bits = draw::<CLS>(nd);
+    let f = f64::from_bits(bits);
+    let want = classify(bits);
+    let sat = Uint::<B, L>::saturating_from(f);
+    match want {
+        Want::Nan => chk!(nd, "C18.saturating_from.nan", refm::is_zero(sat.as_limbs())),
+        Want::Negative => chk!(nd, "C18.saturating_from.negative", refm::is_zero(sat.as_limbs())),
+        Want::Value(v, big) => {
+            let mut w = [0u64; L];
+            let mut fits = !big;
+            let mut i = 0;
+            while i < 4 {
+                if i < L {
+                    w[i] = v[i];
+                } else {
+                    fits &= v[i] == 0;
+                }
+                i += 1;
+            }
+            fits &= refm::canonical(&w, B);
+            let max = refm::max::<L>(B);
+            chk!(nd, "C18.saturating_from.value", refm::eq(sat.as_limbs(), if fits { &w } else { &max }));
+        }
+    }
+}
+
+/// Uint -> f32: one of the two 24-bit neighbours of the exact value (exact when representable); +infinity only when
+/// the upper neighbour is 2^128 (beyond the largest finite f32) or the value has more than 128 bits
+pub fn to_f32<const B: usize, const L: usize>(nd: &mut Nd) {
+    let v: Uint<B, L> = nd.uint();
+    let lv = *v.as_limbs();
+    let n = refm::bit_len(&lv);
+    let f = f32::from(v);
+    let bits = f.to_bits();
+    let exp = ((bits >> 23) & 0xff) as u64;
+    let mant = (bits & ((1u32 << 23) - 1)) as u64;
+    chk!(nd, "C18.to_f32.nonnegative_not_nan", bits >> 31 == 0 && !(exp == 255 && mant != 0));
+    if n == 0 {
+        chk!(nd, "C18.to_f32.zero", bits == 0);
+        return;
+    }
+    let inf = exp == 255;
+    cov!(nd, "infinite", inf);
+    if n > 128 {
+        chk!(nd, "C18.to_f32.inf_above_range", inf);
+        return;
+    }
+    let m = (1u64 << 23) | mant;
+    let e = exp as i64 - 150; // value = m * 2^e
+    if n <= 24 {
+        let sh = (-e) as usize;
+        chk!(nd, "C18.to_f32.exact_small", !inf && e <= 0 && sh < 64 && (m >> sh) << sh == m && L > 0 && m >> sh == lv[0]);
+    } else {
+        let drop = n - 24;
+        let top = refm::shr(&lv, drop)[0]; // 24 bits, top bit set
+        let back = refm::shl(&refm::shr(&lv, drop), drop);
+        let exact = refm::eq(&back, &lv);
+        let hi_is_pow2 = top + 1 == 1u64 << 24;
+        if inf {
+            // only when the upper neighbour is 2^128
+            chk!(nd, "C18.to_f32.inf_only_beyond_range", n == 128 && hi_is_pow2 && !exact);
+        } else {
+            chk!(nd, "C18.to_f32.normal", exp >= 127);
+            let is_lo = m == top && e == drop as i64;
+            let is_hi = if hi_is_pow2 { m == 1u64 << 23 && e == drop as i64 + 1 } else { m == top + 1 && e == drop as i64 };
+            chk!(nd, "C18.to_f32.neighbour", is_lo || (!exact && is_hi));
+        }
+    }
+}
+
+/// monotone: a <= b  =>  f32(a) <= f32(b)
+pub fn to_f32_monotone<const B: usize, const L: usize>(nd: &mut Nd) {
+    let a: Uint<B, L> = nd.uint();
+    let b: Uint<B, L> = nd.uint();
+    nd.assume(!refm::lt(b.as_limbs(), a.as_limbs()));
+    chk!(nd, "C18.to_f32.monotone", f32::from(a) <= f32::from(b));
+}
